@@ -213,6 +213,9 @@ def mk_filewriter(st, kind, connected):
 def install_files(x):
     def f_write(x_, recv, args, kwargs, st):
         o = st.heap[recv.oid]
+        # file object contract: a text stream accepts str only, a binary stream bytes only (TypeError otherwise)
+        is_b = bool(getattr(args[0], "is_bytes", False))
+        x_.raise_if(st, (o["$text"].t if is_b else NOT(o["$text"].t)), "TypeError")
         o["$content"] = VStr(None, z3.Concat(o["$content"].z(), args[0].z())); return NONE
     def f_flush(x_, recv, args, kwargs, st):
         o = st.heap[recv.oid]; o["$flushed"] = VStr(None, o["$content"].z()); return NONE
